@@ -95,6 +95,7 @@ type Stats struct {
 	KnownKept map[string]int // failures kept per listed finding (the rest are only counted)
 	KnownHits map[string]int64
 	NewKept   int
+	DisKept   int
 }
 
 func newStats() *Stats {
@@ -155,12 +156,26 @@ func fieldAgrees(name string, p *Probe) bool {
 
 // engine runs cases through implementation and model.
 type engine struct {
-	kf      *findings
-	cfg     RunConfig
-	prop    *Property
-	stats   *Stats
-	watch   []atomic.Value
-	started []atomic.Int64
+	journals []*os.File
+	kf       *findings
+	cfg      RunConfig
+	prop     *Property
+	stats    *Stats
+	watch    []atomic.Value
+	started  []atomic.Int64
+}
+
+// journal records, before the implementation is called, the case a worker is about to run (one small file per worker,
+// rewritten in place): if the implementation kills the process (stack overflow, concurrent map writes) the last case of
+// each worker is left behind and bin/check re-runs those few cases in fresh processes to name the failing input.
+func (e *engine) journal(id int, c *Case) {
+	if e.journals == nil || id >= len(e.journals) || e.journals[id] == nil {
+		return
+	}
+	b, _ := json.Marshal(c)
+	f := e.journals[id]
+	f.WriteAt(b, 0)
+	f.Truncate(int64(len(b)))
 }
 
 func (e *engine) worker(id int, cases <-chan []Case, wg *sync.WaitGroup) {
@@ -382,6 +397,7 @@ func (e *engine) runBatch(id int, mp *modelproc.Proc, batch []Case) {
 	for i := range batch {
 		c := &batch[i]
 		e.watch[id].Store(*c)
+		e.journal(id, c)
 		e.started[id].Store(time.Now().UnixNano())
 		ps := probesOf(c)
 		e.started[id].Store(0)
@@ -466,8 +482,15 @@ func (e *engine) runBatch(id int, mp *modelproc.Proc, batch []Case) {
 					st.KnownKept[id]++
 					st.Failures = append(st.Failures, f)
 				}
-			} else if st.NewKept < 3000 {
-				st.NewKept++
+			} else if f.Class == "spec" {
+				// spec failures (they carry a failing input for the property itself) have their own budget: a flood of
+				// disagreements must never crowd them out
+				if st.NewKept < 3000 {
+					st.NewKept++
+					st.Failures = append(st.Failures, f)
+				}
+			} else if st.DisKept < 500 {
+				st.DisKept++
 				st.Failures = append(st.Failures, f)
 			}
 		}
@@ -508,6 +531,15 @@ func runCheck(cfg RunConfig) int {
 	}
 	t0 := time.Now()
 	e := &engine{kf: loadFindings(cfg.Findings), cfg: cfg, prop: prop, stats: newStats(), watch: make([]atomic.Value, cfg.Workers), started: make([]atomic.Int64, cfg.Workers)}
+	if cfg.ReplayDir != "" {
+		jdir := filepath.Join(cfg.ReplayDir, "journal-"+cfg.Prop)
+		os.RemoveAll(jdir)
+		os.MkdirAll(jdir, 0o755)
+		for i := 0; i < cfg.Workers; i++ {
+			f, _ := os.Create(filepath.Join(jdir, fmt.Sprintf("worker-%02d.json", i)))
+			e.journals = append(e.journals, f)
+		}
+	}
 	cases := make(chan []Case, cfg.Workers*2)
 	var wg sync.WaitGroup
 	for i := 0; i < cfg.Workers; i++ {
